@@ -521,12 +521,16 @@ fn follow_cnames(
 
     let mut seen = HashSet::new();
     let mut final_name = target.clone();
-    while let Some(target) = cname_map.get(&final_name) {
-        if seen.contains(target) {
-            return None;
+    // a question for the `CNAME` record itself is answered by that record, not
+    // by what it points to
+    if qtype != QueryType::Record(RecordType::CNAME) {
+        while let Some(target) = cname_map.get(&final_name) {
+            if seen.contains(target) {
+                return None;
+            }
+            seen.insert(target.clone());
+            final_name = target.clone();
         }
-        seen.insert(target.clone());
-        final_name = target.clone();
     }
 
     if got_match || !seen.is_empty() {
